@@ -397,6 +397,81 @@ func runDijkstra(enc *json.Encoder, n int, w [][]int, src int, r *rand.Rand, uni
 	}
 }
 
+type dSparse struct {
+	Ev    string  `json:"ev"`
+	N     int     `json:"n"`
+	Edges [][]int `json:"edges"`
+	Dist  []int   `json:"dist"`
+	Prev  []int   `json:"prev"`
+	Path  []int   `json:"path"` // EdgeToPath of the last vertex
+}
+
+// runSparse: a long graph (more than a thousand vertices, shortest paths of more than a thousand edges): the chain
+// 1 -> 2 -> ... -> n (weights 1..2) plus skip edges forward - all of them heavier than the stretch of chain they skip
+// when heavyOnly, else about half of them real shortcuts - plus edges backward.  Source 1, every vertex reachable.
+func runSparse(enc *json.Encoder, n int, heavyOnly bool, r *rand.Rand) {
+	hashableVerts = r.Intn(2) == 0
+	type key struct{ a, b int }
+	ws := map[key]int{}
+	pre := make([]int, n+1) // pre[i] = weight of the chain from 1 to i
+	for i := 1; i < n; i++ {
+		w := 1 + r.Intn(2)
+		ws[key{i, i + 1}] = w
+		pre[i+1] = pre[i] + w
+	}
+	for k := 0; k < n/4; k++ {
+		i := 1 + r.Intn(n-2)
+		j := i + 2 + r.Intn(60)
+		if j > n {
+			j = n
+		}
+		if j-i < 2 {
+			continue
+		}
+		along := pre[j] - pre[i]
+		w := along + 1 + r.Intn(5)
+		if !heavyOnly && r.Intn(2) == 0 {
+			w = 1 + r.Intn(along)
+		}
+		ws[key{i, j}] = w
+	}
+	for k := 0; k < n/10; k++ {
+		j := 1 + r.Intn(n-1)
+		i := j + 1 + r.Intn(n-j)
+		ws[key{i, j}] = 1 + r.Intn(3)
+	}
+	var g graph.Graph
+	for _, i := range r.Perm(n) {
+		g.Add(mkV(i + 1))
+	}
+	rec := dSparse{Ev: "sparse", N: n, Dist: make([]int, n), Prev: make([]int, n), Path: []int{}}
+	for k, w := range ws { // (map order: a random insertion order)
+		g.AddEdgeWeighted(mkV(k.a), mkV(k.b), w)
+		rec.Edges = append(rec.Edges, []int{k.a, k.b, w})
+	}
+	distTo, edgeTo := g.Dijkstra(mkV(1))
+	for v := 1; v <= n; v++ {
+		rec.Dist[v-1] = inUnits(distTo[v], 1)
+		if p, ok := idOf(edgeTo[v]); ok {
+			rec.Prev[v-1] = p
+		}
+	}
+	// (a cyclic predecessor map would keep EdgeToPath busy for ever: follow it here with a bound first)
+	cur, steps := n, 0
+	for ; cur != 0 && steps <= n; steps++ {
+		cur = rec.Prev[cur-1]
+	}
+	if steps > n {
+		rec.Path = []int{-1}
+	} else {
+		for _, x := range g.EdgeToPath(mkV(n), edgeTo) {
+			xi, _ := idOf(x)
+			rec.Path = append(rec.Path, xi)
+		}
+	}
+	enc.Encode(rec)
+}
+
 // searchAndRecord runs one search and writes the graph / pops / result lines of it.
 func searchAndRecord(enc *json.Encoder, g *graph.Graph, n int, w [][]int, src int, unit int) {
 	enc.Encode(dGraph{Ev: "graph", N: n, W: w, Src: src})
@@ -459,6 +534,14 @@ func cmdDijkstra(args []string) {
 	defer bw.Flush()
 	enc := json.NewEncoder(bw)
 	runs := 0
+	if *mode == "sparse" {
+		for c := 0; c < *count; c++ {
+			runSparse(enc, *n+r.Intn(*n/4+1), c%2 == 0, r)
+			runs++
+		}
+		fmt.Fprintf(os.Stderr, "drive dijkstra sparse: runs=%d\n", runs)
+		return
+	}
 	if *mode == "all" {
 		var ws []int
 		for _, s := range splitInts(*weights) {
